@@ -118,3 +118,65 @@ def rule_pbkdf(model, rep, R):
               witness="salt and secret (or rounds and keylen) swapped")
     rep.check(has_stmt(fn, "secret = to_bytes(secret, param='secret')") and has_stmt(fn, "salt = to_bytes(salt, param='salt')"), R, site("pbkdf2_hmac"),
               "to_bytes(secret), to_bytes(salt)", "text inputs are UTF-8 encoded")
+
+
+#: IANA "Hash Function Textual Names" registry (RFC 3279 / RFC 4055 / RFC 6920 era entries that hashlib also provides): hashlib name -> registered name
+IANA_HASH_NAMES = {"md2": "md2", "md5": "md5", "sha1": "sha-1", "sha224": "sha-224", "sha256": "sha-256", "sha384": "sha-384", "sha512": "sha-512"}
+#: FIPS 180-4 / RFC 1321 (digest size, block size) in bytes
+HASH_SIZES = {"md4": (16, 64), "md5": (16, 64), "sha1": (20, 64), "sha224": (28, 64), "sha256": (32, 64), "sha384": (48, 128), "sha512": (64, 128)}
+
+
+def rule_hash_names(model, rep, R):
+    """the digest-name table that lookup_hash(), scram's algorithm labels and the pbkdf2 hasher names are built on: column 0 is the
+    hashlib name, column 1 the IANA-registered name, the rest aliases; no name occurs twice"""
+    unit = model.unit(D)
+    tab = model.fold(unit, ast.Name(id="_known_hash_names", ctx=ast.Load()))
+    s = site("_known_hash_names")
+    if tab is UNKNOWN or not isinstance(tab, (list, tuple)) or not all(isinstance(r, tuple) and len(r) >= 2 and all(isinstance(x, str) for x in r) for r in tab):
+        rep.undecided(R, s, "table does not fold to a list of string tuples")
+        return
+    rows = {r[0]: r for r in tab}
+    for h, iana in IANA_HASH_NAMES.items():
+        r = rows.get(h)
+        rep.check(r is not None and r[1] == iana, R, s + f" {h}", repr(r), f"row of {h}: (hashlib name {h!r}, IANA name {iana!r}, aliases...)",
+                  witness="scram records label their sha-384 digest 'sha2-384' and a well-formed '$scram$...sha-384=...' string no longer parses")
+    flat = [x for r in tab for x in r]
+    dup = sorted({x for x in flat if flat.count(x) > 1 and not any(r.count(x) == flat.count(x) and r[0] == x and r[1] == x for r in tab)})
+    rep.check(not dup, R, s + " unique", f"duplicates: {dup}", "a name or alias belongs to one row only")
+    fb = model.fold(unit, ast.Name(id="_fallback_info", ctx=ast.Load()))
+    if isinstance(fb, dict):
+        for h, want in HASH_SIZES.items():
+            if h in fb:
+                rep.check(fb[h] == want, R, site("_fallback_info") + f" {h}", repr(fb[h]), f"(digest size, block size) of {h} is {want}",
+                          witness="HMAC pads to the wrong block size / pbkdf2 emits blocks of the wrong length when the hash is only known through the fallback table")
+
+
+def rule_name_cache(model, rep, R):
+    """lookup_hash() files a caller-supplied constructor under a digest *name* only when that name resolves to the very same constructor
+    (or to nothing): anything else would make every later lookup by name -- HMAC, PBKDF1/2, scram -- run the caller's function"""
+    fn = model.func(D, "lookup_hash")
+    s = site("lookup_hash") + " cache_by_name"
+    unit = model.unit(D)
+    offs = [a for a in walk_no_nested(fn) if isinstance(a, ast.Assign) and ast.unparse(a.targets[0]) == "cache_by_name" and ast.unparse(a.value) == "False"]
+    ons = [a for a in walk_no_nested(fn) if isinstance(a, ast.Assign) and ast.unparse(a.targets[0]) == "cache_by_name" and ast.unparse(a.value) != "False"]
+    if len(offs) != 1:
+        rep.violation(R, s, f"{len(offs)} `cache_by_name = False` statements", "a foreign constructor is kept out of the by-name cache",
+                      witness="after lookup_hash(lambda d=b'': hashlib.blake2b(d, digest_size=32)), compile_hmac('blake2b', key) returns a 32-byte MAC")
+        return
+    # the chain of tests that lead *away* from the `cache_by_name = False` branch
+    chain, node = [], unit.enclosing(offs[0], ast.If)
+    top = node
+    while node is not None and (offs[0] in node.orelse or any(offs[0] is x for st in node.orelse for x in ast.walk(st))):
+        chain.append(ast.unparse(node.test))
+        top = node
+        node = unit.enclosing(node, ast.If)
+        if node is None or not (len(node.orelse) == 1 and node.orelse[0] is top):
+            break
+    allowed = {"other_const is None", "other_const is const", "const is other_const"}
+    ok = bool(chain) and all(t in allowed for t in chain) and len(ons) == 1 and ast.unparse(ons[0].value) == "True"
+    rep.check(ok, R, s, f"kept by name when: {chain}", "a callable digest stays cacheable by name only if the name resolves to nothing or to the identical constructor (`is`)",
+              witness="a wrapper that merely reports the same .name (blake2b with digest_size=32) is cached as 'blake2b': compile_hmac('blake2b', key) and pbkdf1('blake2b', ...) then run the truncated digest")
+    # the by-name fill is conditional on the flag
+    fills = [n for n in walk_no_nested(fn) if isinstance(n, ast.If) and ast.unparse(n.test) == "cache_by_name"]
+    rep.check(len(fills) == 1 and any("cache" in ast.unparse(x) and "name" in ast.unparse(x) for x in ast.walk(fills[0])), R, site("lookup_hash") + " by-name fill",
+              f"{len(fills)} `if cache_by_name:` blocks", "names are filed only under `if cache_by_name:`")
